@@ -46,7 +46,7 @@ int vnacal_new_set_p_tolerance(vnacal_new_t *vnp, double tolerance)
 	return -1;
     }
     vcp = vnp->vn_vcp;
-    if (tolerance < 0.0) {
+    if (!(tolerance >= 0.0)) {
 	_vnacal_error(vcp, VNAERR_USAGE, "vnacal_new_set_p_tolerance: "
 		"tolerance cannot be negative");
 	return -1;
